@@ -11,3 +11,9 @@ LEVEL_TEXT["C20"] = ("Exploration with an exhaustive part: every function is com
                      "(2^k+d, k=0..62), on rapid-drawn 64-bit values, and (thorough) on every signed 32-bit int / every pool size 1..2^31; "
                      "GFD pack/unpack round-trips on drawn field values. Pure functions of one int, so sampling plus the full 32-bit sweep is the right level.")
 LEVEL_NOTE["C20"] = "Trusts the reference functions in the harness and a 64-bit int; 64-bit values beyond the 32-bit range are sampled, not enumerated."
+
+LEVEL_TEXT["C09"] = ("Exploration: rapid state machines drive ring.Buffer through generated operation sequences (all 11 operations, boundary-biased sizes, "
+                     "scripted readers/writers covering every behaviour io.Reader/io.Writer permit) and compare content (via a non-consuming Peek of everything), "
+                     "counters and flags with a byte-slice model after every step; failures shrink to a minimal operation sequence. "
+                     "A data structure with unbounded histories: sampling against a model is the applicable level.")
+LEVEL_NOTE["C09"] = "Trusts the byte-slice model and the scripted reader/writer (both in the harness); sizes bounded by 9000 bytes per operation, sequences by rapid's step budget."
